@@ -80,6 +80,7 @@ def run(chk: harness.Check):
     d3_inserts(chk, F)
     d4_lineage(chk, F)
     d5_text_aside(chk, F)
+    d6_common_unit(chk, F)
 
 
 def d1_no_drop(chk, F):
@@ -120,6 +121,33 @@ def d1_no_drop(chk, F):
     chk.expect(ok and len(ins) >= 2, "C10.D1-no-drop", "categorize|loop", f"{f.file}:{f.line}",
                "an iteration of IngredientList::categorize can finish without inserting the quantity into a category or into `other`",
                sample=f"{f.file}:{f.line}: every iteration inserts into a category list or `other` ({len(ins)} insert sites)")
+
+
+def d6_common_unit(chk, F):
+    """try_add converts the right operand and keeps the LEFT quantity's unit label on the sum, so the common unit that
+    compatible_unit reports must be the left operand's unit: every Some(unit) it returns derives from self.unit, never from rhs."""
+    fs = [g for g in F.find("quantity::Quantity::<V>::compatible_unit") if not g.is_closure()]
+    if len(fs) != 1:
+        chk.fail("anchor-missing", "compatible_unit", "", "anchor-missing: Quantity::compatible_unit not found")
+        return
+    f = fs[0]
+    n = 0
+    for i, j, st in f.iter_stmts():
+        rv = st.get("rv", {})
+        if st["k"] == "assign" and rv.get("k") == "agg" and rv.get("agg") == "adt" and norm(rv["adt"]).endswith("option::Option") and rv["variant"] == "Some" \
+                and any("Arc<convert::Unit>" in x.replace(" ", "") or "Unit" in x for x in rv.get("targs", [])):
+            e = resolve(f, rv["ops"][0])
+            ls = leaves(e)
+            if not any(l.endswith("Converter::find_unit") for l in ls):
+                continue
+            n += 1
+            from_self = any(l.startswith("param:self") for l in ls)
+            from_rhs = any(l.startswith("param:rhs") for l in ls)
+            chk.expect(from_self and not from_rhs, "C10.D6-common-unit", f"compatible_unit|Some#{n}", f"{f.file}:{st.get('line')}",
+                       "compatible_unit can report the RIGHT operand's unit as the common unit: try_add converts the right operand to it and labels the sum with the "
+                       "left unit, so the total is off by the ratio of the two units (2 dl + 100 ml = 102 dl)",
+                       sample=f"{f.file}:{st.get('line')}: common unit = find_unit(self.unit)")
+    chk.floor("C10.D6-common-unit", "Some(unit) results of compatible_unit", n, 1, f"{f.file}:{f.line}")
 
 
 def d5_text_aside(chk, F):
